@@ -27,6 +27,10 @@ LEVEL_TEXT = (
     "symbols/numbers -> ValueError, non-str/non-int -> TypeError, result independent of the cache state, cache = file after "
     "every call that passes the argument checks; the facts about the shipped table (equal lengths, positive exponents, loading "
     "by symbol and number for all 118 elements) are decided by the kernel on the generated loader and the regenerated table. "
+    "Round 3, about the generated coulomb_potential over the reals: the outcome is invariant under a common translation of all points and all "
+    "centres (potential_translation_invariant on lists of points / Gaussians, potential_translation_invariant_arrays on arbitrary argument arrays "
+    "whose data fit their shapes, malformed ones included), no centres -> zeros of shape (N,), all coefficients zero -> zeros, m coincident "
+    "identical functions -> m times one, a point on the centre of an s function in any frame -> c 2 sqrt(alpha/pi). "
     "Hand-written: the NumPy/Python primitives (Model/CoulombPy.lean), the corrected p formula, the documented densities; "
     "tied by correspondence; every generated definition is also run at Float by the driver and compared with the function it came from."
 )
@@ -73,6 +77,14 @@ THEOREMS = [
     "GridVerif.C17.model_load_every_element",
     "GridVerif.C17.model_load_normalises",
     "GridVerif.C17.model_load_unknown_rejected",
+    # round 3: common translation of points and centres; special inputs of the multi-centre clause
+    "GridVerif.C17.dist3_translate",
+    "GridVerif.C17.potential_translation_invariant",
+    "GridVerif.C17.potential_translation_invariant_arrays",
+    "GridVerif.C17.potential_no_centres",
+    "GridVerif.C17.potential_zero_coefficients",
+    "GridVerif.C17.potential_coincident_centres",
+    "GridVerif.C17.potential_at_centre",
 ]
 RULE = (
     "correspondence: coulomb_gaussian_s / coulomb_gaussian_p x normalized in {True, False} on (alpha, r) with alpha "
@@ -91,7 +103,14 @@ RULE = (
     "random case/padding, non-elements, out-of-range / huge / negative numbers, bool, NumPy integers of several widths, floats and "
     "other objects, in shuffled order with repeats, the module cache forced to None at random positions; per call the outcome, the "
     "arrays and the state of the cache afterwards are compared with the model started in the same cache state, the arrays also "
-    "with the stateless JSON table, returned arrays are overwritten by the caller. Non-trivial = a scalar case with "
+    "with the stateless JSON table, returned arrays are overwritten by the caller. Round 3: radii within factors 1.01 / 100 / 1 +- 2^-30 of "
+    "the switch threshold on both sides, +-0.0 / smallest subnormal / smallest normal exponents at the guards, exponents 5e-324 .. 1.8e308 "
+    "(unnormalised variants where their prefactor is inside the double range, UNNORMALISED_ENVELOPE); coulomb_potential on molecules in frames "
+    "shifted by up to 1.5 x 2^20 per axis with all offsets on the dyadic grid 2^(e-50) (exactly representable; tight exponents 1e4..1e14, points at "
+    "sqrt(alpha) r = 1e-3..10, on the centres, on the old origin; the unshifted molecule too), coefficients scaled by 2^-900 .. 2^900 / 1e-50 .. 1e12, "
+    "special inputs (no s / no p / no functions at all, no points, one point on the one centre, all points on centres, coincident centres with equal / "
+    "different exponents / cancelling coefficients, zero coefficients, a zero coefficient on a rejected exponent, points one threshold away along an axis). "
+    "Non-trivial = a scalar case with "
     "0 < sqrt(alpha) r < 6 (erf neither 0 nor saturated) or r within a factor 4 of the switch threshold; a multi-centre case with "
     ">= 2 functions and >= 1 point; a loader case whose text differs from the stored key or that starts from an empty cache"
 )
@@ -109,6 +128,14 @@ ASSUMPTIONS = [
     "np.asarray(x, dtype=float) is the identity of the model: conversion of lists / tuples / integer and single-precision arrays to float64 arrays happens before the model starts (exercised by the container-kind cases); objects NumPy cannot convert (ragged lists, strings) are outside the model and only checked to raise ValueError",
     "NaN / infinite coordinates are outside the property; np.empty_like contents are never read for non-NaN radii",
     "loader model restricted to ASCII input; the JSON numbers are exact decimals in the model and the nearest doubles in Python (compared to 4e-16)",
+    "round 3, measured on the pinned tree and kept outside the generators (information for the lead): (1) for 0 < r < 1e-12 the code returns the r -> 0 limit, "
+    "exact to alpha r^2 / 3 (s_origin): a relative deviation above 1e-10 from the potential for alpha > ~3e14 (witness coulomb_gaussian_s(9e-13, 1e20): 2.7e-5; "
+    "alpha = 1e26, r = 5e-13: factor 5.6) -- the oracle samples below the switch where alpha r^2 <= 3e-11; (2) the unnormalised prefactors (pi/alpha)**1.5 "
+    "and alpha**2.5 leave the double range for alpha < ~1.1e-205 (s) and outside ~[1e-123, 1.7e123] (p): OverflowError / ZeroDivisionError for a Python float, "
+    "inf / 0 for np.float64, where the potential itself is representable (e.g. s, alpha = 1e-250: 6.3e250) -- unnormalised variants are sampled inside "
+    "UNNORMALISED_ENVELOPE",
+    "the floating-point translation invariance is asserted for exactly representable shifts and offsets only (then points - centre is the same double array "
+    "in both frames); for generic far-away coordinates the distance itself carries the rounding of the inputs, which is not the library's doing",
     "alpha given as np.float32 is computed in single precision by NumPy (deviation ~3e-8, docstring says float): pinned with rtol 1e-6, information only",
 ]
 
@@ -154,7 +181,25 @@ def _radii(ctx: Ctx, alpha, thr, k):
     rs.append(1.0 / sa)
     rs.append(5.999999 / sa)
     rs.append(6.0 / sa)
+    # round 3, class 7: both sides of _R_ZERO_THRESHOLD within a factor 1.01 and 100
+    rs += [thr / 1.01, thr * 1.01, thr / 100.0, thr * 100.0, thr * (1 - 2.0 ** -30), thr * (1 + 2.0 ** -30)]
     return rs
+
+
+EXTREME_ALPHAS = [5e-324, 2.2250738585072014e-308, 1e-300, 1e-250, 1e-200, 1e-150, 1e-120, 1e-50, 1e-20, 1e20, 1e50, 1e120, 1e150, 1e200,
+                  1e250, 1e300, 1.7976931348623157e308]
+# Measured on the pinned tree (round 3): the prefactor of the unnormalised variants leaves the double range --
+# s: (pi/alpha)**1.5 overflows for alpha < ~1.1e-205 (OverflowError for a Python float, inf for np.float64) although the
+# potential 2 pi/alpha is representable down to alpha ~ 3.5e-308, and is subnormal for alpha > ~1e205;
+# p: alpha**2.5 underflows / overflows for alpha < ~1e-123 / > ~1.7e123 (ZeroDivisionError / OverflowError / inf / 0).
+# Reported to the lead as an information (exponents 100 orders of magnitude beyond anything physical); the generators
+# stay inside.
+UNNORMALISED_ENVELOPE = {"s": (1e-200, 1e200), "p": (1e-120, 1e120)}
+
+
+def _unnormalised_in_range(kind, alpha):
+    lo, hi = UNNORMALISED_ENVELOPE[kind]
+    return not (alpha > 0) or lo <= alpha <= hi
 
 
 def _nontrivial_scalar(r, alpha, thr):
@@ -195,12 +240,27 @@ def corr(ctx: Ctx):
     bad = [(1.0, 0.0), (1.0, -1.0), (0.0, -1e-300), (-1.0, 1.0), (-1e-13, 2.0), (-5e-324, 2.0), (-1.0, -1.0),
            (0.0, 0.0), (float("inf"), 0.0)]
     cases += bad
+    # round 3, class 7: both sides of the guards `alpha <= 0` / `r < 0` at the smallest magnitudes
+    cases += [(1.0, -0.0), (1.0, 5e-324), (1.0, -5e-324), (0.0, 5e-324), (5e-324, 5e-324), (-0.0, 1.0), (-5e-324, 5e-324),
+              (1.0, 2.2250738585072014e-308), (1.0, -2.2250738585072014e-308)]
     lines, meta = [], []
     for r, alpha in cases:
         for kind in ("s", "p"):
             for nz in (True, False):
+                if not nz and not _unnormalised_in_range(kind, alpha):
+                    continue
                 lines.append(f"C17.{kind} {f2b(r)} {f2b(alpha)} {int(nz)}")
                 meta.append((kind, r, alpha, nz))
+    # round 3, class 8: exponents of extreme magnitude (1e-300 .. 1e300, the smallest / largest doubles); the unnormalised
+    # variants only where their prefactor is inside the double range (see UNNORMALISED_ENVELOPE)
+    for alpha in EXTREME_ALPHAS:
+        for r in _radii(ctx, alpha, thr, 3):
+            for kind in ("s", "p"):
+                for nz in (True, False):
+                    if not nz and not _unnormalised_in_range(kind, alpha):
+                        continue
+                    lines.append(f"C17.{kind} {f2b(r)} {f2b(alpha)} {int(nz)}")
+                    meta.append((kind, r, alpha, nz))
     answers = driver_batch(lines)
     # implementation: scalar calls (the function is elementwise; array calls are cross-checked below)
     for (kind, r, alpha, nz), line in zip(meta, answers):
@@ -566,6 +626,7 @@ def _malformed_pot_calls():
 def _corr_multi(ctx: Ctx, cb, thr):
     cases = _gen_pot_cases(ctx, thr, ctx.n(220, 5000))
     cases += [(c, ctx.rng.choice(["kw", "pos", "allkw"]), "malformed") for c in _malformed_pot_calls()]
+    cases += _gen_pot_cases_r3(ctx, thr, ctx.n(36, 1200))
     lines = [_pot_line(c) for c, _, _ in cases]
     if any(ln is None for ln in lines):
         raise RuntimeError("a generated coulomb_potential case cannot be converted by NumPy")
@@ -586,7 +647,7 @@ def _corr_multi(ctx: Ctx, cb, thr):
                 ctx.tagc("pot:kind:" + kd)
         elif label != "malformed":
             ctx.tagc("pot:kind:" + label.split(":")[0])
-        for extra in ("tight", "int"):
+        for extra in ("tight", "int", "far", "far-base", "scaled", "special"):
             if label.endswith(":" + extra):
                 ctx.tagc("pot:class:" + extra)
         ctx.tagc("pot:route:" + route)
@@ -622,6 +683,150 @@ def _corr_multi(ctx: Ctx, cb, thr):
             ctx.fail("corr", "coulomb_potential:malformed", f"call with an argument NumPy cannot convert was not rejected: {sorted(kw)}")
         except (ValueError, TypeError):
             pass
+
+
+# ---- round 3: far-away frames, scaled coefficients, special points ------------------------------
+def _far_molecule(ctx: Ctx, thr, e=None):
+    """A small set of s / p Gaussians and evaluation points around them on the dyadic grid u = 2^(e-50), |coordinates| <= 6,
+    and a shift T with components in {0, +-2^(e-1), +-2^e, +-3*2^(e-1)} (e = 6..20): every coordinate of the shifted
+    arrays is exactly representable and (point + T) - (centre + T) == point - centre bit for bit.  Tight exponents:
+    the points sit at sqrt(alpha) r from 1e-3 to 10 (rounded to the grid), on the centres themselves, on the origin
+    of the unshifted frame, and anywhere.  Returns dict(base=args, far=args, T=..., e=...), args as float lists."""
+    e = e if e is not None else ctx.rng.randint(6, 20)
+    u = 2.0 ** (e - 50)
+
+    def dy(x):
+        return round(x / u) * u
+
+    def gset(k):
+        centres = [[dy(ctx.rng.uniform(-2, 2)) for _ in range(3)] for _ in range(k)]
+        if k >= 2 and ctx.rng.random() < 0.35:
+            centres[1] = list(centres[0])  # coincident centres
+        coeffs = [ctx.rng.choice([1.0, -1.0, 0.5, 2.0, ctx.rng.uniform(-3, 3), 0.0]) for _ in range(k)]
+        alphas = [10.0 ** (ctx.rng.uniform(4, 14) if ctx.rng.random() < 0.75 else ctx.rng.uniform(-3, 3)) for _ in range(k)]
+        return centres, coeffs, alphas
+
+    ks = ctx.rng.choice([1, 1, 2, 3])
+    kp = ctx.rng.choice([None, None, 0, 1, 2])
+    cs, co, al = gset(ks)
+    cp, cop, alp = gset(kp or 0)
+    pts = []
+    for ctr, a in list(zip(cs, al)) + list(zip(cp, alp)):
+        for _ in range(ctx.rng.choice([1, 2])):
+            rr = 10.0 ** ctx.rng.uniform(-3, 1) / math.sqrt(a)
+            d = [ctx.rng.gauss(0, 1) for _ in range(3)]
+            if ctx.rng.random() < 0.3:
+                d[ctx.rng.randrange(3)] = 0.0
+                d[ctx.rng.randrange(3)] = 0.0  # on an axis through the centre (or on the centre)
+            nrm = math.sqrt(sum(x * x for x in d)) or 1.0
+            d = [dy(rr * x / nrm) for x in d]
+            r2 = sum(x * x for x in d)
+            if 0 < r2 < (2 * thr) ** 2 and a * r2 > 1e-12:
+                d = [0.0, 0.0, 0.0]  # below the switch the code returns the limit value: inside its accuracy envelope only
+            pts.append([c + x for c, x in zip(ctr, d)])
+        if ctx.rng.random() < 0.5:
+            pts.append(list(ctr))  # exactly on the centre
+    pts.append([0.0, 0.0, 0.0])  # origin of the unshifted frame
+    pts.append([dy(ctx.rng.uniform(-4, 4)) for _ in range(3)])
+    T = [ctx.rng.choice([0.0, 1.0, -1.0, 0.5, -0.5, 1.5, -1.5]) * 2.0 ** e for _ in range(3)]
+    if not any(T):
+        T[ctx.rng.randrange(3)] = 2.0 ** e
+    sh = lambda rows: [[x + t for x, t in zip(row, T)] for row in rows]  # noqa: E731
+    base = dict(points=pts, centers_s=cs, coeffs_s=co, alphas_s=al, centers_p=None, coeffs_p=None, alphas_p=None)
+    far = dict(points=sh(pts), centers_s=sh(cs), coeffs_s=co, alphas_s=al, centers_p=None, coeffs_p=None, alphas_p=None)
+    if kp is not None:
+        base.update(centers_p=cp, coeffs_p=cop, alphas_p=alp)
+        far.update(centers_p=sh(cp), coeffs_p=cop, alphas_p=alp)
+    # the construction is exact: shifting back recovers every coordinate
+    for k in ("points", "centers_s", "centers_p"):
+        if base[k] is not None:
+            assert [[x - t for x, t in zip(row, T)] for row in far[k]] == base[k], "far-frame construction is not exact"
+    return dict(base=base, far=far, T=T, e=e)
+
+
+def _args_to_call(args, normalized, kinds=None):
+    call = {}
+    for i, nme in enumerate(POT_NAMES):
+        v = args.get(nme)
+        if v is None:
+            continue
+        arr = np.array(v, dtype=float).reshape(-1, 3) if nme in ("points", "centers_s", "centers_p") else np.array(v, dtype=float).reshape(-1)
+        call[nme] = _as_kind(arr, kinds[i]) if kinds else arr
+    call["normalized"] = normalized
+    return call
+
+
+def _special_pot_args(ctx: Ctx, thr):
+    """Class 12: special points / degenerate sets of the multi-centre routine (float lists; all exponents positive
+    unless stated)."""
+    a1, a2 = 10.0 ** ctx.rng.uniform(-2, 3), 10.0 ** ctx.rng.uniform(6, 12)
+    R = [round(ctx.rng.uniform(-3, 3), 2) for _ in range(3)]
+    Q = [round(ctx.rng.uniform(-3, 3), 2) for _ in range(3)]
+    none_p = dict(centers_p=None, coeffs_p=None, alphas_p=None)
+    empty_p = dict(centers_p=[], coeffs_p=[], alphas_p=[])
+    P3_ = [R, Q, [0.0, 0.0, 0.0], [R[0], 0.0, 0.0], [0.0, R[1], R[2]]]
+    out = [
+        # empty centre sets: with / without points, p None / empty / given
+        ("empty-s-none-p", dict(points=P3_, centers_s=[], coeffs_s=[], alphas_s=[], **none_p)),
+        ("empty-s-empty-p", dict(points=P3_, centers_s=[], coeffs_s=[], alphas_s=[], **empty_p)),
+        ("empty-s-some-p", dict(points=P3_, centers_s=[], coeffs_s=[], alphas_s=[], centers_p=[R], coeffs_p=[1.5], alphas_p=[a1])),
+        ("some-s-empty-p", dict(points=P3_, centers_s=[R], coeffs_s=[1.5], alphas_s=[a1], **empty_p)),
+        ("no-points", dict(points=[], centers_s=[R, Q], coeffs_s=[1.0, 2.0], alphas_s=[a1, a2], centers_p=[R], coeffs_p=[1.0], alphas_p=[a1])),
+        ("nothing-at-all", dict(points=[], centers_s=[], coeffs_s=[], alphas_s=[], **empty_p)),
+        # a single point exactly on the single centre, centre not at the origin; the origin when the centre is elsewhere
+        ("point-on-centre", dict(points=[R], centers_s=[R], coeffs_s=[0.75], alphas_s=[a2], centers_p=[R], coeffs_p=[-0.5], alphas_p=[a2])),
+        ("origin-centre-elsewhere", dict(points=[[0.0, 0.0, 0.0]], centers_s=[R], coeffs_s=[2.0], alphas_s=[a1], **none_p)),
+        ("all-points-on-centres", dict(points=[R, Q, R, Q], centers_s=[R, Q], coeffs_s=[1.0, -2.0], alphas_s=[a1, a2], centers_p=[Q, R], coeffs_p=[0.5, 0.25], alphas_p=[a2, a1])),
+        # several coincident centres (same and different exponents), also between the s and the p set
+        ("coincident-3x-same", dict(points=P3_, centers_s=[R, R, R], coeffs_s=[0.5, 0.5, 0.5], alphas_s=[a1, a1, a1], **none_p)),
+        ("coincident-different-alpha", dict(points=P3_, centers_s=[R, R, Q, R], coeffs_s=[1.0, -1.0, 2.0, 0.25], alphas_s=[a1, a2, a1, 3.0], centers_p=[R, R], coeffs_p=[1.0, 1.0], alphas_p=[a1, a2])),
+        ("coincident-cancelling", dict(points=P3_, centers_s=[R, R], coeffs_s=[1.0, -1.0], alphas_s=[a1, a1], **none_p)),
+        # zero coefficients: all, some, with tight exponents; -0.0
+        ("zero-coefficients-all", dict(points=P3_, centers_s=[R, Q], coeffs_s=[0.0, 0.0], alphas_s=[a1, a2], centers_p=[Q], coeffs_p=[0.0], alphas_p=[a2])),
+        ("zero-coefficients-some", dict(points=P3_, centers_s=[R, Q, R], coeffs_s=[0.0, 1.25, -0.0], alphas_s=[a2, a1, a1], centers_p=[Q, R], coeffs_p=[0.0, 2.0], alphas_p=[a1, a2])),
+        # a zero coefficient does not excuse a rejected exponent (ValueError: the clause has no instance, the tag is compared)
+        ("zero-coefficient-bad-alpha", dict(points=P3_, centers_s=[R, Q], coeffs_s=[1.0, 0.0], alphas_s=[a1, -1.0], **none_p)),
+        ("zero-coefficient-bad-alpha-p", dict(points=P3_, centers_s=[R], coeffs_s=[1.0], alphas_s=[a1], centers_p=[Q], coeffs_p=[0.0], alphas_p=[0.0])),
+        ("no-points-bad-alpha", dict(points=[], centers_s=[R], coeffs_s=[1.0], alphas_s=[-2.0], **none_p)),
+        # one point, one shell away: the radius equals the switch threshold along an axis (centre at the origin: exact)
+        ("threshold-shell", dict(points=[[thr, 0.0, 0.0], [0.0, -thr, 0.0], [0.0, 0.0, thr * 1.01], [thr / 1.01, 0.0, 0.0], [100 * thr, 0, 0], [0, thr / 100, 0]],
+                                 centers_s=[[0.0, 0.0, 0.0]], coeffs_s=[1.0], alphas_s=[a1], centers_p=[[0.0, 0.0, 0.0]], coeffs_p=[1.0], alphas_p=[a1])),
+    ]
+    return out
+
+
+SCALES = [2.0 ** -900, 2.0 ** -166, 1e-50, 1e-12, 2.0 ** -40, 2.0 ** 40, 1e12, 2.0 ** 100, 2.0 ** 900]
+
+
+def _gen_pot_cases_r3(ctx: Ctx, thr, n):
+    """Round-3 classes for the correspondence of the GENERATED coulomb_potential: frames far from the origin (class 8),
+    coefficients scaled over 1e-271 .. 1e271 (class 8), special points and degenerate sets (class 12)."""
+    cases = []
+    for i in range(n):
+        nz = ctx.rng.random() < 0.6
+        route = ctx.rng.choice(["kw", "pos", "allkw"])
+        u = i % 3
+        if u == 0:
+            m = _far_molecule(ctx, thr, e=6 + (i // 3) % 15)
+            kinds = None if ctx.rng.random() < 0.6 else [ctx.rng.choice(("f64", "list", "tuple", "strided", "fortran", "readonly")) for _ in range(7)]
+            cases.append((_args_to_call(m["far"], nz, kinds), route, "f64:far"))
+            cases.append((_args_to_call(m["base"], nz, kinds), route, "f64:far-base"))
+        elif u == 1:
+            ks, kp = ctx.rng.choice([1, 2, 3]), ctx.rng.choice([None, 1, 2])
+            cs, co, al = _rand_gaussians(ctx, ks)
+            if ctx.rng.random() < 0.5:
+                al = [10.0 ** ctx.rng.uniform(-12, 12) for _ in al]
+            k = ctx.rng.choice(SCALES)
+            args = dict(points=[[ctx.rng.uniform(-3, 3) for _ in range(3)] for _ in range(3)] + [list(cs[0])], centers_s=cs,
+                        coeffs_s=[(c or 1.0) * k for c in co], alphas_s=al, centers_p=None, coeffs_p=None, alphas_p=None)
+            if kp:
+                cp, cop, alp = _rand_gaussians(ctx, kp)
+                args.update(centers_p=cp, coeffs_p=[(c or 1.0) * k for c in cop], alphas_p=alp)
+            cases.append((_args_to_call(args, nz), route, "f64:scaled"))
+    for nz in (True, False):
+        for name, args in _special_pot_args(ctx, thr):
+            cases.append((_args_to_call(args, nz), ctx.rng.choice(["kw", "pos", "allkw"]), "f64:special"))
+    return cases
 
 
 # ---- loader ----------------------------------------------------------------------------------
@@ -1015,6 +1220,27 @@ for e, cold in history:
 """
 
 
+SNIPPET_LOAD_KEPT = """import warnings; warnings.filterwarnings('ignore')
+import json, numpy as np
+from importlib.resources import files
+import grid.coulomb as cb
+import grid.utils as utils
+raw = json.load(open(files('grid.data').joinpath('atomic_gauss_params.json')))
+maps = (dict(utils.sym2num), dict(utils.num2sym))
+history = {history}      # (element, force the module cache to None before the call?)
+for e, cold in history:
+    if cold:
+        cb._ATOMIC_GAUSS_PARAMS_CACHE = None
+    try:
+        cb.load_atomic_gaussian_params(e)
+    except (ValueError, TypeError):
+        pass
+    c = cb._ATOMIC_GAUSS_PARAMS_CACHE
+    assert c is None or c == raw, f'after load_atomic_gaussian_params({{e!r}}) the module cache differs from the file: keys {{sorted(set(c) ^ set(raw))[:5]}}'
+    assert (dict(utils.sym2num), dict(utils.num2sym)) == maps, 'grid.utils.sym2num / num2sym changed'
+"""
+
+
 def _fails_fresh(snippet: str) -> bool:
     """Does the snippet raise in a fresh interpreter importing the same tree?"""
     import subprocess
@@ -1035,8 +1261,22 @@ def _check_load_history(ctx: Ctx, cb, utils, raw_float, history, where):
             if cold:
                 cb._ATOMIC_GAUSS_PARAMS_CACHE = None
             exp = _expected_load(e, utils, raw_float)
+            maps = (dict(utils.sym2num), dict(utils.num2sym))
             tag, arrs = _impl_load(cb, e)
             ok = tag == exp[0]
+            # round 3 (class 9): what the library keeps is not changed by a call, whatever key was asked for
+            cache = cb._ATOMIC_GAUSS_PARAMS_CACHE
+            if ok and ((cache is not None and cache != raw_float) or (dict(utils.sym2num), dict(utils.num2sym)) != maps):
+                what = "the module cache _ATOMIC_GAUSS_PARAMS_CACHE is no longer the content of atomic_gauss_params.json" if (cache is not None and cache != raw_float) \
+                    else "grid.utils.sym2num / num2sym were changed"
+                extra = sorted(set(cache) - set(raw_float)) if isinstance(cache, dict) else None
+                hsrc = "[" + ", ".join(f"({_py_expr(x)}, {c_})" for x, c_ in history[:k + 1]) + "]" if all(_py_expr(x) is not None for x, _ in history[:k + 1]) else None
+                ctx.fail("oracle", "coulomb.load_atomic_gaussian_params:kept-state",
+                         f"after load_atomic_gaussian_params({e!r}) ({where}; call {k + 1} of the history {[repr(x) for x, _ in history[:k + 1]][-6:]}) {what}"
+                         + (f" (new keys: {extra[:5]})" if extra else ""),
+                         witness={"element": repr(e), "history": [[repr(x), c_] for x, c_ in history[:k + 1]]},
+                         snippet=None if hsrc is None else SNIPPET_LOAD_KEPT.format(history=hsrc))
+                return True
             if ok and tag == "ok":
                 c, a = arrs
                 ok = isinstance(c, np.ndarray) and isinstance(a, np.ndarray) and c.ndim == 1 and c.shape == a.shape and len(a) > 0 \
@@ -1160,6 +1400,256 @@ def oracle_at(ctx: Ctx, failure):
                           "doc = (mp.erf(mp.sqrt(A)*R)/R if r > 0 else 2*mp.sqrt(A/mp.pi)) + mp.mpf(4)/3*mp.sqrt(A/mp.pi)*mp.exp(-A*R*R)\n"
                           "doc = doc if nz else doc*mp.mpf(3)/2*mp.pi**mp.mpf('1.5')/A**mp.mpf('2.5')\n"
                           f"got = float(np.asarray({call_src}).reshape(-1)[0])\nassert abs(got - doc) <= 1e-10*abs(doc), (got, doc)\n"))
+
+
+# ----------------------------------------------------------------------------
+# round 3: the oracle itself samples far-away frames, scaled coefficients, special points, the switch window
+# ----------------------------------------------------------------------------
+def _ref_s_scaled(alpha, r, normalized):
+    """Coulomb potential of the documented s density by the substitution s = t / sqrt(alpha) (the density is
+    (alpha/pi)^{3/2} e^{-t^2}): V_alpha(r) = sqrt(alpha) V_1(sqrt(alpha) r), times (pi/alpha)^{3/2} when unnormalised.
+    V_1 is the mpmath Coulomb integral at exponent 1 -- well conditioned for exponents of any magnitude."""
+    mp = _mp()
+    a, R = mp.mpf(alpha), mp.mpf(r)
+    v1 = _ref_potential("s", 1.0, mp.sqrt(a) * R, True)
+    return mp.sqrt(a) * v1 * (1 if normalized else (mp.pi / a) ** mp.mpf("1.5"))
+
+
+SNIPPET_S_SCALED = """import warnings; warnings.filterwarnings('ignore')
+import mpmath as mp
+from grid.coulomb import coulomb_gaussian_s as f
+mp.mp.dps = 30
+alpha, r, normalized = {alpha!r}, {r!r}, {normalized!r}
+a, R = mp.mpf(alpha), mp.mpf(r)
+x = mp.sqrt(a) * R                                              # t = sqrt(alpha) s: density (alpha/pi)^(3/2) exp(-t^2)
+rho1 = lambda t: mp.pi ** mp.mpf('-1.5') * mp.exp(-t * t)
+inner = mp.quad(lambda t: 4 * mp.pi * t * t * rho1(t), [0, min(x, 1), x]) / x if x > 0 else 0
+outer = mp.quad(lambda t: 4 * mp.pi * t * rho1(t), [x, x + 1, x + 4, x + 12, mp.inf])
+ref = mp.sqrt(a) * (inner + outer) * (1 if normalized else (mp.pi / a) ** mp.mpf('1.5'))
+got = float(f(r, alpha, normalized=normalized)[0])
+assert abs(got - ref) <= {tol!r} * abs(ref), f'coulomb_gaussian_s(r={{r}}, alpha={{alpha}}, normalized={{normalized}}) = {{got}}, potential of the documented density = {{mp.nstr(ref, 17)}} (relative deviation {{mp.nstr(abs(got - ref) / abs(ref), 4)}})'
+"""
+
+SNIPPET_FAR = """import warnings; warnings.filterwarnings('ignore')
+import mpmath as mp, numpy as np
+from grid.coulomb import coulomb_potential, coulomb_gaussian_s, coulomb_gaussian_p
+mp.mp.dps = 40
+args = {args!r}          # every coordinate is an exactly representable double
+normalized = {normalized!r}
+A = {{k: (None if v is None else (np.array(v, dtype=float).reshape(-1, 3) if k in ('points', 'centers_s', 'centers_p') else np.array(v, dtype=float))) for k, v in args.items()}}
+got = coulomb_potential(**A, normalized=normalized)
+want = np.zeros(len(args['points'])); scale = np.zeros(len(args['points']))
+for kind, f in (('s', coulomb_gaussian_s), ('p', coulomb_gaussian_p)):
+    if args.get('coeffs_' + kind) is None:
+        continue
+    for c, a, ctr in zip(args['coeffs_' + kind], args['alphas_' + kind], args['centers_' + kind]):
+        # |point - centre| in exact arithmetic from the doubles handed to the library
+        r = np.array([float(mp.sqrt(sum((mp.mpf(x) - mp.mpf(y)) ** 2 for x, y in zip(pt, ctr)))) for pt in args['points']])
+        v = f(r, a, normalized=normalized) if len(r) else np.zeros(0)
+        want = want + c * v; scale = scale + abs(c) * np.abs(v)    # coefficient-weighted sum of the single-centre functions
+assert got.shape == want.shape and np.all(np.abs(got - want) <= {tol!r} * scale + 1e-300), f'coulomb_potential = {{got.tolist()}}; sum_k c_k V_k(|x - R_k|) with the exact distances = {{want.tolist()}} (sum of magnitudes {{scale.tolist()}})'
+"""
+
+
+def _exact_dist(mp, pts, ctr):
+    return np.array([float(mp.sqrt(sum((mp.mpf(x) - mp.mpf(y)) ** 2 for x, y in zip(pt, ctr)))) for pt in pts], dtype=float)
+
+
+def _pot_reference_exact(cb, args, normalized, s_closed_form=False):
+    """sum_k c_k V_k(|x - R_k|) with the distances computed in exact (40-digit) arithmetic from the doubles given, V_k the
+    single-centre functions of the library ('the coefficient-weighted sum of these'); with `s_closed_form` the s terms are
+    mpmath's erf(sqrt(a) r)/r -- the Coulomb integral of the documented density by GridVerif.C17.s_closed_form_is_coulomb_integral
+    (limit 2 sqrt(a/pi) at r = 0, s_origin_is_coulomb_integral).  Returns (want, scale) or None if an exponent is rejected."""
+    import mpmath
+    mp = _mp()
+    pts = args["points"]
+    want, scale = np.zeros(len(pts)), np.zeros(len(pts))
+    with mpmath.workdps(40), np.errstate(all="ignore"):
+        for kind, f in (("s", cb.coulomb_gaussian_s), ("p", cb.coulomb_gaussian_p)):
+            if args.get("coeffs_" + kind) is None:
+                continue
+            for c, a, ctr in zip(args["coeffs_" + kind], args["alphas_" + kind], args["centers_" + kind]):
+                if not len(pts):
+                    if not a > 0:
+                        return None
+                    continue
+                if kind == "s" and s_closed_form:
+                    if not a > 0:
+                        return None
+                    A = mp.mpf(a)
+                    fac = 1 if normalized else (mp.pi / A) ** mp.mpf("1.5")
+                    v = []
+                    for pt in pts:
+                        R = mp.sqrt(sum((mp.mpf(x) - mp.mpf(y)) ** 2 for x, y in zip(pt, ctr)))
+                        v.append(float(fac * (mp.erf(mp.sqrt(A) * R) / R if R > 0 else 2 * mp.sqrt(A / mp.pi))))
+                    v = np.array(v)
+                else:
+                    try:
+                        v = f(_exact_dist(mp, pts, ctr), a, normalized=normalized)
+                    except ValueError:
+                        return None
+                want = want + c * v
+                scale = scale + abs(c) * np.abs(v)
+    return want, scale
+
+
+def _call_pot_lists(cb, args, normalized):
+    A = {k: (None if v is None else (np.array(v, dtype=float).reshape(-1, 3) if k in ("points", "centers_s", "centers_p")
+                                     else np.array(v, dtype=float).reshape(-1))) for k, v in args.items()}
+    with np.errstate(all="ignore"):
+        return cb.coulomb_potential(**A, normalized=normalized)
+
+
+def _check_pot_exact(ctx: Ctx, cb, args, normalized, where, tol=1e-12, s_closed_form=False, expect=None):
+    """coulomb_potential on float64 arrays against the exact-distance reference (and against `expect`, a list of
+    exactly known values, when given).  True if a failure was recorded."""
+    ref = _pot_reference_exact(cb, args, normalized, s_closed_form=s_closed_form)
+    try:
+        got = _call_pot_lists(cb, args, normalized)
+        again = _call_pot_lists(cb, args, normalized)
+    except ValueError as e:
+        if ref is None:
+            return False  # an exponent <= 0: rejected, as it must be
+        ctx.fail("oracle", "coulomb.coulomb_potential", f"coulomb_potential ({where}) raised ValueError: {e} on well-shaped arguments with positive exponents",
+                 witness={"args": args, "normalized": normalized}, snippet=SNIPPET_FAR.format(args=args, normalized=normalized, tol=tol))
+        return True
+    except Exception as e:  # noqa: BLE001
+        ctx.fail("oracle", "coulomb.coulomb_potential", f"coulomb_potential ({where}) raised {type(e).__name__}: {e}",
+                 witness={"args": args, "normalized": normalized}, snippet=SNIPPET_FAR.format(args=args, normalized=normalized, tol=tol))
+        return True
+    if ref is None:
+        ctx.fail("oracle", "coulomb.coulomb_potential:guards", f"coulomb_potential ({where}) accepted a set with an exponent <= 0 and returned {np.asarray(got).tolist()}",
+                 witness={"args": args, "normalized": normalized},
+                 snippet=("import numpy as np\nfrom grid.coulomb import coulomb_potential\n" f"args = {args!r}\n"
+                          "A = {k: (None if v is None else (np.array(v, dtype=float).reshape(-1, 3) if k in ('points', 'centers_s', 'centers_p') else np.array(v, dtype=float))) for k, v in args.items()}\n"
+                          f"try:\n    coulomb_potential(**A, normalized={normalized})\nexcept ValueError:\n    pass\nelse:\n    raise AssertionError('an exponent <= 0 was accepted')\n"))
+        return True
+    want, scale = ref
+    bad = (not isinstance(got, np.ndarray)) or got.shape != want.shape or got.dtype != np.float64 \
+        or bool(np.any(np.abs(got - want) > tol * scale + 1e-300)) or not np.array_equal(got, again, equal_nan=True)
+    if not bad and expect is not None:
+        bad = bool(np.any(np.abs(got - np.array(expect, dtype=float)) > tol * scale + 1e-300))
+        want = np.array(expect, dtype=float) if bad else want
+    if bad:
+        ctx.fail("oracle", "coulomb.coulomb_potential",
+                 f"coulomb_potential ({where}; normalized={normalized}) = {np.asarray(got).tolist()} [shape {list(np.shape(got))}], but the coefficient-weighted sum of the "
+                 f"single-centre potentials at the exact distances |x - R_k| is {want.tolist()} [shape {list(want.shape)}] (tolerance {tol:g} x sum of magnitudes {scale.tolist()})",
+                 witness={"args": args, "normalized": normalized, "got": np.asarray(got).tolist(), "reference": want.tolist()},
+                 snippet=SNIPPET_FAR.format(args=args, normalized=normalized, tol=tol))
+    return bad
+
+
+def _oracle_round3(ctx: Ctx, cb, utils, thr, large):
+    mp = _mp()
+    ctx.info("C17 envelopes measured on the pinned tree (round 3): small-r branch (0 < r < 1e-12) exact to alpha r^2/3, sampled for alpha r^2 <= 3e-11; "
+             f"unnormalised prefactors inside the double range for alpha in {UNNORMALISED_ENVELOPE}; far frames: shifts up to 1.5 x 2^20 with offsets on the grid 2^(e-50)")
+    # (g) class 8: frames far from the origin with tight exponents.  The shifted call must give the potential of the same
+    #     molecule: equal to the exact-distance reference AND to the unshifted call (the shift is exactly representable,
+    #     so are all shifted coordinates: the only thing that changes is where the molecule sits).
+    for i in range(45 if large else 10):
+        m = _far_molecule(ctx, thr, e=6 + i % 15 if i < 15 else None)
+        nz = ctx.rng.random() < 0.7
+        where = f"molecule shifted by T={m['T']} (2^{m['e']} frame, dyadic offsets)"
+        ctx.tagc("oracle:far-frame")
+        if _check_pot_exact(ctx, cb, m["far"], nz, where, s_closed_form=(i % 2 == 0)):
+            continue
+        if _check_pot_exact(ctx, cb, m["base"], nz, "the same molecule around the origin", s_closed_form=(i % 2 == 0)):
+            continue
+        v0, v1 = _call_pot_lists(cb, m["base"], nz), _call_pot_lists(cb, m["far"], nz)
+        _, scale = _pot_reference_exact(cb, m["base"], nz)
+        if np.any(np.abs(v1 - v0) > 1e-12 * scale + 1e-300):
+            ctx.fail("oracle", "coulomb.coulomb_potential", f"coulomb_potential is not invariant under the exactly representable common shift T={m['T']} of points and "
+                     f"centres: {v1.tolist()} (shifted) vs {v0.tolist()} (around the origin)",
+                     witness={"base": m["base"], "shifted": m["far"], "T": m["T"], "normalized": nz},
+                     snippet=SNIPPET_FAR.format(args=m["far"], normalized=nz, tol=1e-12))
+    # (h) class 8: coefficients scaled by k over 1e-271 .. 1e271 -- the result is k times the unscaled one, relative to
+    #     that scale (powers of two: exactly), exponents over 24 orders of magnitude
+    for i in range(30 if large else 6):
+        ks, kp = ctx.rng.choice([1, 2, 3]), ctx.rng.choice([None, 1, 2])
+        cs, co, al = _rand_gaussians(ctx, ks)
+        al = [10.0 ** ctx.rng.uniform(-12, 12) for _ in al] if i % 2 else al
+        co = [c or 1.0 for c in co]
+        args = dict(points=[[ctx.rng.uniform(-3, 3) for _ in range(3)] for _ in range(3)] + [list(cs[0])], centers_s=cs, coeffs_s=co, alphas_s=al,
+                    centers_p=None, coeffs_p=None, alphas_p=None)
+        if kp:
+            cp, cop, alp = _rand_gaussians(ctx, kp)
+            args.update(centers_p=cp, coeffs_p=[c or 1.0 for c in cop], alphas_p=alp)
+        nz = ctx.rng.random() < 0.6
+        k = SCALES[i % len(SCALES)]
+        ctx.tagc("oracle:scaled-coefficients")
+        scaled = dict(args, coeffs_s=[c * k for c in args["coeffs_s"]], coeffs_p=None if args["coeffs_p"] is None else [c * k for c in args["coeffs_p"]])
+        if _check_pot_exact(ctx, cb, scaled, nz, f"coefficients scaled by {k!r}"):
+            continue
+        v0, v1 = _call_pot_lists(cb, args, nz), _call_pot_lists(cb, scaled, nz)
+        _, scale = _pot_reference_exact(cb, args, nz)
+        if np.any(np.abs(v1 - k * v0) > 1e-12 * k * scale):
+            ctx.fail("oracle", "coulomb.coulomb_potential", f"coulomb_potential with all coefficients multiplied by {k!r} is not {k!r} x the unscaled result: "
+                     f"{v1.tolist()} vs {(k * v0).tolist()}", witness={"args": scaled, "scale": k, "normalized": nz},
+                     snippet=SNIPPET_FAR.format(args=scaled, normalized=nz, tol=1e-12))
+    # (i) class 12: special points and degenerate sets, with the values known in closed form where there is one
+    for nz in (True, False):
+        for name, args in _special_pot_args(ctx, thr):
+            npts = len(args["points"])
+            expect = None
+            ctx.tagc("oracle:special:" + name)
+            if name in ("empty-s-none-p", "empty-s-empty-p", "nothing-at-all", "zero-coefficients-all", "coincident-cancelling"):
+                expect = [0.0] * npts
+            if name == "no-points":
+                expect = []
+            if _check_pot_exact(ctx, cb, args, nz, f"special input '{name}'", expect=expect, s_closed_form=True):
+                continue
+            if name == "coincident-3x-same":  # three times the same function = 3 x 0.5 x one function
+                one = dict(args, centers_s=args["centers_s"][:1], coeffs_s=[1.5], alphas_s=args["alphas_s"][:1])
+                v3, v1 = _call_pot_lists(cb, args, nz), _call_pot_lists(cb, one, nz)
+                if np.any(np.abs(v3 - v1) > 1e-13 * np.abs(v1)):
+                    ctx.fail("oracle", "coulomb.coulomb_potential", f"three coincident identical s functions with coefficient 0.5 give {v3.tolist()}, one with coefficient 1.5 gives {v1.tolist()}",
+                             witness={"args": args, "normalized": nz}, snippet=SNIPPET_FAR.format(args=args, normalized=nz, tol=1e-12))
+    # a point on the centre of one normalised s function, any frame: c * 2 sqrt(alpha/pi) (Coulomb integral at r = 0)
+    for _ in range(6 if large else 2):
+        a = 10.0 ** ctx.rng.uniform(-6, 12)
+        R = [ctx.rng.choice([1.0, -1.0, 3.0]) * 2.0 ** ctx.rng.randint(-3, 20) for _ in range(3)]
+        c = ctx.rng.uniform(-2, 2)
+        args = dict(points=[R], centers_s=[R], coeffs_s=[c], alphas_s=[a], centers_p=None, coeffs_p=None, alphas_p=None)
+        v0 = float(c * _ref_s_scaled(a, 0.0, True))
+        _check_pot_exact(ctx, cb, args, True, "one point on the centre of one s function", expect=[v0], tol=1e-10, s_closed_form=True)
+    # (j) class 7: the s function on both sides of the switch within factors 1.01 and 100, and exponents of extreme
+    #     magnitude, against the Coulomb integral (rescaled variable).  Below the switch the code returns the r -> 0 limit:
+    #     exact to alpha r^2 / 3 (GridVerif.C17.s_origin) -- sampled where that is below 1e-11 (alpha r^2 <= 3e-11); the
+    #     unnormalised variant where its prefactor is inside the double range.
+    alphas = [1.0, 1e-6, 1e6, 1e10, 3e12, 10.0 ** ctx.rng.uniform(-10, 12), 10.0 ** ctx.rng.uniform(6, 13)] + (EXTREME_ALPHAS if large else [1e-300, 1e-120, 1e120, 1e300, 1.7976931348623157e308])
+    for a in alphas:
+        sa = math.sqrt(a)
+        radii = [thr / 100, thr / 1.01, float(np.nextafter(thr, 0)), thr, thr * 1.01, thr * 100, 0.0]
+        radii += [x / sa for x in (1e-3, 0.7, 3.0, 9.0)]
+        for r in radii:
+            if 0 < r < thr and a * r * r > 3e-11:
+                continue  # outside the accuracy envelope of the small-r branch (reported, not asserted)
+            for nz in (True, False):
+                if not nz and not _unnormalised_in_range("s", a):
+                    continue
+                ref = _ref_s_scaled(a, r, nz)
+                ctx.tagc("oracle:s:" + ("below-switch" if 0 < r < thr else "r=0" if r == 0 else "near-switch" if r <= 100 * thr else "bulk")
+                         + (":extreme-alpha" if not 1e-20 < a < 1e20 else ""))
+                with np.errstate(all="ignore"):
+                    got = float(cb.coulomb_gaussian_s(r, a, normalized=nz)[0])
+                if not abs(got - ref) <= 1e-10 * abs(ref):
+                    ctx.fail("oracle", "coulomb.coulomb_gaussian_s",
+                             f"coulomb_gaussian_s(r={r!r}, alpha={a!r}, normalized={nz}) = {got!r}, but the Coulomb potential of the documented density is "
+                             f"{mp.nstr(ref, 17)} (relative deviation {mp.nstr(abs(got - ref) / abs(ref), 4)})",
+                             witness={"r": r, "alpha": a, "normalized": nz, "got": got, "reference": mp.nstr(ref, 20)},
+                             snippet=SNIPPET_S_SCALED.format(alpha=a, r=r, normalized=nz, tol=1e-10))
+    # (k) class 9: the loader asked for keys it has no parameters for (elements without an entry, non-elements, objects of the
+    #     wrong type), repeatedly and between successful loads: always the same rejection, and what the library keeps
+    #     (the module cache = the parsed file, grid.utils.sym2num / num2sym) is what it was
+    raw_float = {k: {kk: [float(x) for x in vv] for kk, vv in v.items()} for k, v in _json_tables().items()}
+    stored = list(raw_float)
+    missing = [s_ for s_ in utils.sym2num if s_ not in raw_float]
+    for _ in range(6 if large else 2):
+        m1, m2 = ctx.rng.choice(missing), ctx.rng.choice(missing)
+        k1 = ctx.rng.choice(stored)
+        hist = [(m1, True), (m1, False), (k1, False), (m1.lower(), False), (int(utils.sym2num[m2]), False), (k1.lower(), False), ("Xx", False), (m2, False),
+                (np.int64(utils.sym2num[m1]), False), (int(utils.sym2num[k1]), False), (0, False), (m1, False), (k1, False)]
+        _check_load_history(ctx, cb, utils, raw_float, hist, "keys without parameters between successful loads")
 
 
 def oracle(ctx: Ctx, budget: str):
@@ -1309,3 +1799,5 @@ def oracle(ctx: Ctx, budget: str):
         _check_load_history(ctx, cb, utils, raw_float, [(e, False)], "non-elements")
     for e in (2.0, 1.0, None, [1], b"H", np.float64(6.0)):
         _check_load_history(ctx, cb, utils, raw_float, [(e, False)], "neither str nor int")
+    # round 3
+    _oracle_round3(ctx, cb, utils, thr, large)
